@@ -46,17 +46,56 @@ class Execution:
         self.events = []  # op-level history: (tid, 'inv'|'res', op, value, clock)
         self.errors = {}
         self.log = []
+        self.blocked = [None] * nthreads  # lock a thread waits for (scheduler-aware locks)
+        self.deadlock = False
 
     # ---- called by the running managed thread
     def point(self, loc):
         tid = self.idents.get(threading.get_ident())
         if tid is None or tid != self.current or self.fault:
             return
-        others = [t for t in range(self.n) if not self.done[t] and t != tid]
+        others = [t for t in range(self.n) if not self.done[t] and t != tid and self.blocked[t] is None]
         if not others:
             return
         order = [tid] + others
         self._choose(tid, loc, order, False)
+
+    def block(self, tid, lock):
+        """the running thread cannot take `lock`: hand the baton to another enabled thread (forced, free)"""
+        if self.deadlock:
+            raise Deadlock("deadlock")
+        self.blocked[tid] = lock
+        others = [t for t in range(self.n) if not self.done[t] and t != tid and self.blocked[t] is None]
+        if not others:
+            self._deadlock()
+            raise Deadlock(f"thread {tid} waits for a lock that no runnable thread can release")
+        i = len(self.points)
+        c = 0
+        if i < len(self.prefix):
+            c = self.prefix[i]
+            if c >= len(others):
+                self.fault = f"divergence: prefix choice {c} at blocking point {i} but only {len(others)} enabled"
+                c = 0
+        target = others[c]
+        self.points.append((tid, "blocked", len(others), c, True, target))
+        self.clock += 1
+        self.current = target
+        self.sems[target].release()
+        self.sems[tid].acquire()
+        if self.deadlock:
+            raise Deadlock("deadlock")
+
+    def unblock(self, lock):
+        for t in range(self.n):
+            if self.blocked[t] is lock:
+                self.blocked[t] = None
+
+    def _deadlock(self):
+        self.deadlock = True
+        for t in range(self.n):
+            if self.blocked[t] is not None and not self.done[t]:
+                self.blocked[t] = None
+                self.sems[t].release()
 
     def _choose(self, tid, loc, order, is_exit):
         i = len(self.points)
@@ -77,10 +116,16 @@ class Execution:
 
     def finish(self, tid):
         self.done[tid] = True
-        others = [t for t in range(self.n) if not self.done[t]]
-        if not others:
+        alive = [t for t in range(self.n) if not self.done[t]]
+        if not alive:
             self.current = None
             self.all_done.set()
+            return
+        if self.deadlock:
+            return  # every blocked thread was already released to die with Deadlock
+        others = [t for t in alive if self.blocked[t] is None]
+        if not others:
+            self._deadlock()  # the remaining threads all wait for locks nobody will release
             return
         self._choose(tid, "exit", others, True)
 
@@ -138,6 +183,99 @@ def _codes_of_module(mod):
     return out
 
 
+class SchedLock:
+    """threading.Lock / RLock replacement that blocks through the scheduler (a real lock would hang the
+    baton-passing scheme).  Outside a controlled execution it behaves like the real thing."""
+
+    def __init__(self, reentrant=False):
+        import _thread
+
+        self._real = _thread.allocate_lock()
+        self._reentrant = reentrant
+        self._owner = None
+        self._count = 0
+
+    def acquire(self, blocking=True, timeout=-1):
+        me = threading.get_ident()
+        if self._reentrant and self._owner == me:
+            self._count += 1
+            return True
+        ex = _EXEC
+        tid = ex.idents.get(me) if ex is not None else None
+        if tid is None:
+            ok = self._real.acquire(blocking, timeout) if blocking else self._real.acquire(False)
+            if ok:
+                self._owner, self._count = me, 1
+            return ok
+        while True:
+            ex.point(("lock-acquire", id(self) & 0xFFFF))
+            if self._real.acquire(False):
+                self._owner, self._count = me, 1
+                return True
+            if not blocking:
+                return False
+            ex.block(tid, self)
+
+    def release(self):
+        if self._reentrant and self._count > 1:
+            self._count -= 1
+            return
+        self._owner, self._count = None, 0
+        self._real.release()
+        ex = _EXEC
+        if ex is not None:
+            ex.unblock(self)
+
+    def locked(self):
+        return self._real.locked()
+
+    __enter__ = acquire
+
+    def __exit__(self, *a):
+        self.release()
+
+
+class _ThreadingShim:
+    """what first-party modules see as `threading` while instrumented"""
+
+    def __init__(self, real):
+        self._real = real
+
+    def Lock(self):
+        return SchedLock(False)
+
+    def RLock(self):
+        return SchedLock(True)
+
+    def __getattr__(self, name):
+        return getattr(self._real, name)
+
+
+def _install_sched_locks(saved):
+    """replace real locks reachable from first-party modules / classes / live evaluators' classes"""
+    import _thread
+
+    lock_types = (type(_thread.allocate_lock()), type(threading.RLock()))
+    for mname, mod in list(sys.modules.items()):
+        if not (mname == "pyab_experiment" or mname.startswith("pyab_experiment.")) or mod is None:
+            continue
+        for k, v in list(vars(mod).items()):
+            if v is threading:
+                saved.append((mod, k, v))
+                setattr(mod, k, _ThreadingShim(threading))
+            elif v is threading.Lock or v is threading.RLock:
+                saved.append((mod, k, v))
+                setattr(mod, k, (lambda r: (lambda: SchedLock(r)))(v is threading.RLock))
+            elif isinstance(v, lock_types):
+                saved.append((mod, k, v))
+                setattr(mod, k, SchedLock(isinstance(v, lock_types[1])))
+            elif isinstance(v, type) and getattr(v, "__module__", None) == mname:
+                for ck, cv in list(vars(v).items()):
+                    if isinstance(cv, lock_types):
+                        saved.append((v, ck, cv))
+                        setattr(v, ck, SchedLock(isinstance(cv, lock_types[1])))
+
+
 CORE_MODULES = ["pyab_experiment.experiment_evaluator", "pyab_experiment.utils.wraper_functions", "pyab_experiment.binning.binning"]
 DEEP_MODULES = CORE_MODULES + ["pyab_experiment.sly.lex", "pyab_experiment.sly.yacc", "pyab_experiment.language.lexer",
                                "pyab_experiment.language.grammar", "pyab_experiment.codegen.python.python_generator"]  # fmt: skip
@@ -189,6 +327,8 @@ class Instrument:
 
         EV.__getattribute__ = _get
         EV.__setattr__ = _set
+        self._locks = []
+        _install_sched_locks(self._locks)
         # thread-confinement evidence for lexer / parser / code generator instances
         self._own_classes = []
         try:
@@ -237,6 +377,8 @@ class Instrument:
                 cls.__setattr__ = o
             else:
                 del cls.__setattr__
+        for owner, k, v in self._locks:
+            setattr(owner, k, v)
         if self.mode in ("line", "instr"):
             for c in self.codes:
                 mon.set_local_events(TOOL, c, 0)
